@@ -1467,10 +1467,15 @@ class Engine:
     def finish_call(self, ctx, f, r, dest, ret_bb):
         """r: value | Fork([(cond, value)]) | Diverge"""
         if isinstance(r, Fork):
+            alive = [(cond, val) for cond, val in r.alts if cond is None or self.feasible(ctx.pc + [cond])]
+            if len(alive) == 1 and not callable(alive[0][1]) and not isinstance(alive[0][1], (Diverge, Unwind, TailCall, Fork, Script)):
+                # only one alternative is possible here: no fork, the path simply continues (with the condition recorded)
+                cond, val = alive[0]
+                if cond is not None and not z3.is_true(z3.simplify(cond)):
+                    ctx.pc.append(cond)
+                return self.finish_call(ctx, f, val, dest, ret_bb)
             out = []
-            for cond, val in r.alts:
-                if cond is not None and not self.feasible(ctx.pc + [cond]):
-                    continue
+            for cond, val in alive:
                 c2 = ctx.clone()
                 if cond is not None:
                     c2.pc.append(cond)
